@@ -497,6 +497,8 @@ func exec(c vh.Case, o *vh.Out) {
 	var allowFiles bool
 	reader := "std"
 	honestPuts := map[string]*putInfo{} // multihash -> info, only while the reference is the one Put wrote
+	urlRefs := map[string]string{}      // multihash -> symbolic URL of a raw URL reference
+	urlKinds := map[string]urlEnt{}     // symbolic URL -> behaviour of the server
 	refKey := func(m []byte) ds.Key { return filestore.FilestorePrefix.Child(dshelp.MultihashToDsKey(m)) }
 
 	for _, line := range c.Ops {
@@ -539,6 +541,7 @@ func exec(c vh.Case, o *vh.Out) {
 			srvMu.Lock()
 			srvTab[strings.TrimPrefix(u, srv.URL)] = urlEnt{f[2], st, vh.UnHex(f[4])}
 			srvMu.Unlock()
+			urlKinds[f[1]] = urlEnt{f[2], st, nil}
 			o.Kind("url-" + f[2])
 			o.Emit("ok")
 		case "ref":
@@ -547,7 +550,9 @@ func exec(c vh.Case, o *vh.Out) {
 			p := realURL(f[2])
 			val, _ := proto.Marshal(&pb.DataObj{FilePath: &p, Offset: &off, Size: &size})
 			delete(honestPuts, f[1])
+			delete(urlRefs, f[1])
 			if strings.HasPrefix(f[2], "http") {
+				urlRefs[f[1]] = f[2]
 				o.Kind("ref-url")
 			} else {
 				o.Kind("ref-raw")
@@ -555,9 +560,11 @@ func exec(c vh.Case, o *vh.Out) {
 			emitErr(o, mds.Put(ctx, refKey(vh.UnHex(f[1])), val))
 		case "refbad":
 			delete(honestPuts, f[1])
+			delete(urlRefs, f[1])
 			emitErr(o, mds.Put(ctx, refKey(vh.UnHex(f[1])), []byte{0xff, 0xff, 0xff}))
 		case "refdel":
 			delete(honestPuts, f[1])
+			delete(urlRefs, f[1])
 			emitErr(o, mds.Delete(ctx, refKey(vh.UnHex(f[1]))))
 		case "fput":
 			k := parseCid(f[1])
@@ -571,6 +578,7 @@ func exec(c vh.Case, o *vh.Out) {
 			case err == nil:
 				m := vh.Hex(k.Hash())
 				delete(honestPuts, m)
+				delete(urlRefs, m)
 				if verdict(cid.NewCidV1(cid.Raw, k.Hash()), data) == "eq" {
 					honestPuts[m] = &putInfo{f[2], off, data}
 				}
@@ -637,6 +645,12 @@ func exec(c vh.Case, o *vh.Out) {
 					if res != "ok:"+vh.Hex(pi.data) {
 						o.Fail("intact-reference-not-served", "%s: region intact, got %s", line, res)
 					}
+				}
+			}
+			// monitor 3 (URL references): a server that fails or answers a non-200/206 status is reported
+			if u, ok := urlRefs[vh.Hex(k.Hash())]; ok && f[0] != "vget" && !fromInner && fm.AllowUrls {
+				if e, ok := urlKinds[u]; ok && (e.kind == "down" || e.kind == "status") && res != "fileerror" {
+					o.Fail("url-failure-not-reported", "%s: server %s/%d, got %s", line, e.kind, e.status, res)
 				}
 			}
 			o.Emit("%s", res)
